@@ -130,6 +130,13 @@ def check(ctx, rep):
                repr(kw), ctx.where(withs[0]))
         loads = [norm(n.func) for n in own_nodes(withs[0]) if isinstance(n, ast.Call) and norm(n.func) in ('self.program.load', 'self.program.merge')]
         rep.ob('chain.load-inside-context', 'the new program is loaded inside the context', sorted(loads) == ['self.program.load', 'self.program.merge'], repr(loads), ctx.where(withs[0]))
+        # the COMMON strings are stored again when the context exits; only after that may the temporaries
+        # mark be moved, or the next expression "frees" the last restored string as a temporary
+        ft = [n for n in own_nodes(ch) if isinstance(n, ast.Call) and norm(n.func).endswith('strings.fix_temporaries')]
+        rep.ob('chain.temporaries-fixed-after-restore', 'chain_ fixes the temporaries mark after the preserve context has restored the COMMON strings',
+               len(ft) == 1 and ft[0].lineno > withs[0].end_lineno,
+               'fix_temporaries runs before the COMMON values are stored back: the restored strings count as temporaries and the first expression of the chained program deletes one',
+               ctx.where(ft[0]) if ft else ctx.where(ch))
     pc = ctx.fn(MEMORY + ':DataSegment.preserve_commons')
     ys = [n for n in own_nodes(pc) if isinstance(n, ast.Expr) and isinstance(n.value, ast.Yield)]
     rep.ob('commons.single-yield', 'preserve_commons yields once', len(ys) == 1, '', ctx.where(pc))
@@ -168,6 +175,7 @@ def variants(ctx):
         return lambda tree: f(mu.find_def(tree, path_fn))
 
     return [
+        Va('chain-fixes-temporaries-too-early', 'break', IMPL, in_fn('Implementation.chain_', _fix_first), expect='chain.temporaries'),
         Va('clear-all-keeps-rnd', 'break', IMPL, in_fn('Implementation._clear_all', lambda fn: mu.remove_stmt(fn, mu.text_is('self.randomiser.clear()'))), expect='random'),
         Va('clear-all-keeps-functions', 'break', IMPL,
            in_fn('Implementation._clear_all', lambda fn: mu.remove_stmt(fn, lambda st: isinstance(st, ast.If) and 'preserve_functions' in norm(st.test))), expect='DEF FN'),
@@ -227,3 +235,13 @@ def _always_keep_functions(fn):
                     k.value = ast.Constant(value=True)
                     return True
     return False
+
+
+def _fix_first(fn):
+    ft = [s for s in fn.body if isinstance(s, ast.Expr) and 'fix_temporaries' in norm(s)]
+    w = [s for s in fn.body if isinstance(s, ast.With)]
+    if len(ft) != 1 or len(w) != 1:
+        return False
+    fn.body.remove(ft[0])
+    fn.body.insert(fn.body.index(w[0]), ft[0])
+    return True
